@@ -1,5 +1,7 @@
 package main
 
+// verif:needs c05
+
 // C16: cancellation only truncates a search; it never alters results or the engine.
 //
 // The context is cancelled inside the k-th leaf evaluation of an Analyze call (search_common.go: the evaluation wrapper cancels and
